@@ -14,7 +14,7 @@ MODULE = "Model.BrokerClient"
 # "+cc": a cancelled connection attempt fails with ConnectingCancelledError as Twisted's stock endpoints do (drv CcNet)
 POLICIES = ["const", "twisted", "twisted_fast+cc", "table:11", "table:12+cc", "const+cc", "twisted+cc"]
 ENUM_POLICY = "const+cc"
-NATIVE_READY = False     # Model/BrokerClientHook.v is being reworked: native (in-loop) re-entrancy parts switched off meanwhile
+NATIVE_READY = True
 
 F1 = D.reply(1)
 F2 = D.reply(2, b"x")
@@ -190,37 +190,49 @@ def alphabet(kind):
     if kind == "split":      # the reply to request 1 arrives in two pieces: loss / cancel / close possible inside a frame
         fr = D.simnet.frame(F1)
         a = [e for e in a if e != ("make", 2, False)] + [("data", fr[:5]), ("data", fr[5:])]
-    if kind == "hook":       # no-reply requests whose callback closes the client / cancels another request (Model/BrokerClientHook.v)
-        a = [("makethen", 1, ("close",)), ("makethen", 1, ("cancel", 1)), ("makethen", 2, ("cancel", 0)), ("make", 2, True), ("make", 3, True),
-             ("cancel", 0), ("cancel", 1), ("frame", D.reply(2)), ("ok",), ("fail",), ("lost",), ("fire",), ("close",)]
+    if kind.startswith("hook"):      # plain events; the user code is in the hook table HOOK_TABLES[kind] (Model/BrokerClientHook.v)
+        a = [("make", 1, False), ("make", 2, True), ("make", 3, False), ("make", 2, False), ("cancel", 0), ("cancel", 1),
+             ("frame", D.reply(2)), ("ok",), ("fail",), ("lost",), ("fire",), ("close",)]
     return a
 
 
-def _expand(seq, alpha, hook=False):
-    im = HookImpl(ENUM_POLICY, None, {}) if hook else D.Impl(ENUM_POLICY)
+# hook tables of the exhaustive enumeration: what the callback/errback of the n-th request does when its Deferred fires
+HOOK_TABLES = {
+    "hook-a": {0: [("cancel", 1)], 1: [("make", 9, True)], 2: [("close",)], 3: [("cancel", 0), ("make", 2, True)]},
+    "hook-b": {0: [("close",)], 1: [("cancel", 0), ("cancel", 2)], 2: [("make", 2, False), ("disc",)], 3: [("cancel", 1)]},
+    "hook-c": {0: [("cancel", 1), ("make", 2, True)], 1: [("cancel", 2), ("close",)], 2: [("cancel", 0)], 3: [("make", 1, True)]},
+}
+
+
+def _expand(seq, alpha, hook=None):
+    im = TreeImpl(ENUM_POLICY, HOOK_TABLES[hook]) if hook else D.Impl(ENUM_POLICY)
     for ev in seq:
         im.apply(ev)
     nxt = [ev for ev in alpha if im.enabled(ev) and not (ev[0] == "close" and im.closed)]
-    return im.records, nxt
+    return (im if hook else im.records), nxt
 
 
 def _shard(args):
-    prefixes, depth, alpha, which, exe = args
-    hook = exe.endswith("hook")
-    lines, traces, seqs = [], [], []
+    prefixes, depth, alpha, which, exe, hook = args
+    lines, traces, seqs, cnts = [], [], [], []
     nmon, mon_first = 0, None
     stack = [list(p) for p in prefixes]
     while stack:
         seq = stack.pop()
         recs, nxt = _expand(seq, alpha, hook)
-        lines.append(vlib.encode_line(enc_hcase(seq) if hook else D.enc_case(seq)))
-        traces.append(vlib.encode_line(D.enc_trace(recs)))
-        seqs.append(seq)
         if hook:
-            g = generic_monitor(recs, which[0])
+            im = recs
+            recs = im.records
+            case, counts = enc_icase(im.mevents)
+            lines.append(vlib.encode_line(case))
+            cnts.append(counts if im.order_ok else None)
+            g = tree_monitor(im, which[0])
             b = [g] if g else []
         else:
+            lines.append(vlib.encode_line(D.enc_case(seq)))
             b = D.monitor(recs, which)
+        traces.append(vlib.encode_line(D.enc_trace(recs)))
+        seqs.append(seq)
         if b:
             nmon += 1
             if mon_first is None:
@@ -234,7 +246,13 @@ def _shard(args):
     out = p.stdout.decode().split("\n")
     ndiff, diff_first = 0, None
     for i, t in enumerate(traces):
-        if i >= len(out) or out[i] != t:
+        if hook:
+            if cnts[i] is None:
+                continue
+            same = i < len(out) and merge_canon([int(x) for x in out[i].split()], cnts[i]) == split_trace([int(x) for x in t.split()])
+        else:
+            same = i < len(out) and out[i] == t
+        if not same:
             ndiff += 1
             if diff_first is None:
                 diff_first = (seqs[i], t, out[i] if i < len(out) else None)
@@ -251,17 +269,18 @@ def exhaustive(ck, depth, kind, which, tied, rnd, procs=16, split_depth=3):
     for _ in range(min(split_depth, depth)):
         nl = []
         for s in level:
-            _r, nxt = _expand(s, alpha, kind == "hook")
+            _r, nxt = _expand(s, alpha, kind if kind.startswith("hook") else None)
             nl += [s + [ev] for ev in nxt]
         short += level
         level = nl
-    exe = os.path.join(vlib.OUT, "run_" + (MODEL + "hook" if kind == "hook" else MODEL))
+    hook = kind if kind.startswith("hook") else None
+    exe = os.path.join(vlib.OUT, "run_" + (MODEL + "hook" if hook else MODEL))
     short = [s for s in short if s]
     shards = [[] for _ in range(procs * 4)]
     for i, s in enumerate(level):
         shards[i % len(shards)].append(s)
-    jobs = [(sh, depth, alpha, which, exe) for sh in shards if sh]
-    jobs.append((None, 0, alpha, which, exe))
+    jobs = [(sh, depth, alpha, which, exe, hook) for sh in shards if sh]
+    jobs.append((None, 0, alpha, which, exe, hook))
     results = []
     ctx = multiprocessing.get_context("fork")
     with ctx.Pool(procs) as pool:
@@ -277,16 +296,17 @@ def exhaustive(ck, depth, kind, which, tied, rnd, procs=16, split_depth=3):
         ck.hist("exhaustive_events_" + kind, r["events"])
     mon = [r["mon_first"] for r in results if r["mon_first"]]
     dif = [r["diff_first"] for r in results if r["diff_first"]]
-    if kind == "hook":
+    if hook:
+        hk = {str(k): [list(a) for a in v] for k, v in HOOK_TABLES[hook].items()}
         if mon:
             seq, (thm, msg, idx) = min(mon, key=lambda m: len(m[0]))
-            ck.violation({"kind": "monitor (exhaustive small-scope enumeration, callbacks inside the queue flush)", "theorem": thm,
-                          "message": msg, "events": D.jsonable(seq), "hooks": {}, "replay_op": "bc-hook"})
+            ck.violation({"kind": "monitor (exhaustive small-scope enumeration, user code inside the loops)", "theorem": thm,
+                          "message": msg, "events": D.jsonable(seq), "hooks": hk, "policy": ENUM_POLICY, "replay_op": "bc-tree"})
         elif dif:
             seq, it, mt = min(dif, key=lambda d: len(d[0]))
             ck.violation({"kind": "correspondence broken", "correspondence": "corr:brokerclienthook:" + label,
-                          "theorems_no_longer_tied": tied, "events": D.jsonable(seq), "hooks": {}, "impl": it, "model": mt,
-                          "differing_cases": st["differences"], "replay_op": "bc-hook"}, no_input=True)
+                          "theorems_no_longer_tied": tied, "events": D.jsonable(seq), "hooks": hk, "policy": ENUM_POLICY, "impl": it, "model": mt,
+                          "differing_cases": st["differences"], "replay_op": "bc-tree"}, no_input=True)
     elif mon:
         seq, (thm, msg, idx) = mon[0]
         small = D.shrink(seq, failing_fn(thm, which, ENUM_POLICY))
@@ -311,10 +331,10 @@ def exhaustive(ck, depth, kind, which, tied, rnd, procs=16, split_depth=3):
 
 
 def _shard_or_short(a):
-    (prefixes, depth, alpha, which, exe), short = a
+    (prefixes, depth, alpha, which, exe, hook), short = a
     if prefixes is None:      # the sequences shorter than the split depth, not extended
-        return _shard((short, 0, alpha, which, exe)) if short else {"n": 0, "events": 0, "nmon": 0, "mon_first": None, "ndiff": 0, "diff_first": None, "sample": ([], "")}
-    return _shard((prefixes, depth, alpha, which, exe))
+        return _shard((short, 0, alpha, which, exe, hook)) if short else {"n": 0, "events": 0, "nmon": 0, "mon_first": None, "ndiff": 0, "diff_first": None, "sample": ([], "")}
+    return _shard((prefixes, depth, alpha, which, exe, hook))
 
 
 # ------------------------------------------------------------------ replay
@@ -634,6 +654,8 @@ def generic_monitor(records, pid="C10"):
                 if o[1] in fired:
                     return ("C06_exactly_once" if pid == "C06" else "C10_reentrant_reachable", "Deferred %d fired twice" % o[1], idx)
                 fired[o[1]] = o[2]
+            elif o == ("raised", 5):
+                return ("C06_exactly_once" if pid == "C06" else "C10_reentrant_reachable", "cancel() raised KeyError out of the canceller", idx)
             elif o[0] == "write" and o[1] in fired:
                 return ("C06_nothing_after_fired" if pid == "C06" else "C10_never_resent", "request of handle %d written after its Deferred fired (code %d: 2 None, 3 cancelled, 4 closed)" % (o[1], fired[o[1]]), idx)
             elif o == ("raised", 99):
@@ -735,7 +757,7 @@ def replay_hook(rp):
     print("monitor verdict now:", g)
     bad += 1 if g else 0
     mev, counts = hooked_model_case(events, im.hook_fired)
-    native = any(e[0] == "makethen" for e in events)
+    native = False
     exe = os.path.join(vlib.OUT, "run_" + ("brokerclienthook" if native else MODEL))
     if os.path.exists(exe):
         p = subprocess.run([exe], input=(vlib.encode_line(enc_hcase(mev) if native else D.enc_case(mev)) + "\n").encode(), stdout=subprocess.PIPE)
@@ -749,9 +771,10 @@ def replay_hook(rp):
 # ------------------------------------------------------------------ F-C10-1 probe
 def probe_f_c10_1():
     """close() from the callback of a no-reply request while _sendQueued flushes the queue: is a request written after
-    close() failed its Deferred?  returns (observed, outputs of the connect event)"""
+    close() failed its Deferred?  returns (observed, events, hooks, outputs of the connect event)"""
     events = [("make", 1, False), ("make", 2, True), ("ok",)]
-    im = run_hooked(events, {0: ("close",)})
+    hooks = {"0": [["close"]]}
+    im = run_tree(events, hooks, "const")
     outs = im.records[-1][2]
     seen_def = False
     observed = False
@@ -760,4 +783,369 @@ def probe_f_c10_1():
             seen_def = True
         if (o[0] == "write" and o[1] == 1 and seen_def) or o == ("raised", 99):
             observed = True
-    return observed, events, outs
+    return observed, events, hooks, outs
+
+
+# ------------------------------------------------------------------ user code inside the two loops (Model/BrokerClientHook.v)
+# Every request may carry a hook: a list of calls (cancel h / make rid expect / disc / close) its callback AND errback
+# make when the Deferred fires, whatever the outcome.  The driver records WHERE each hook ran:
+#   - directly inside _sendQueued's loop (a no-reply request completing) or close()'s loop (errback): the calls become the
+#     interleaving parameter of the model event IConnOk / IClose (nested: a close() made from inside the flush has a loop
+#     of its own);
+#   - anywhere else the Deferred fired in tail position: the calls are inserted as the next events (calls made by hooks
+#     that fire as a consequence of a call are appended right after that call).
+# close() fails the pending requests newest first in the model; the property does not fix the order.  Where no user code
+# runs inside close() the driver sorts the firings into the model's order; where user code runs inside the loop the
+# outcome legitimately depends on the order, so such a case is compared with the model only if the implementation
+# failed the requests newest first, and is always subject to the order-independent monitors.
+class TreeImpl(D.Impl):
+    def __init__(self, pk, hooks):
+        D.Impl.__init__(self, pk, None)
+        self.hooks = hooks
+        self.frames = []
+        self.inserted = []
+        self.mevents = []
+        self.nloop = {"flush": 0, "close": 0}
+        self.ntail = 0
+        self.order_ok = True
+
+    def _watch(self, d, h):
+        D.Impl._watch(self, d, h)
+        acts = self.hooks.get(h)
+        if not acts:
+            return
+
+        def cb(result):       # Impl._watch's errback returns None, so this runs whatever the outcome was
+            self._fire_hook(h, acts)
+            return result
+        d.addCallback(cb)
+
+    def _fire_hook(self, h, acts):
+        fr = self.frames[-1] if self.frames else None
+        if fr is not None and fr["cur"] is None:
+            fr["cur"] = []
+            fr["groups"].append((h, fr["cur"]))
+            self.nloop[fr["kind"]] += 1
+            try:
+                self._run_acts(acts, fr["cur"])
+            finally:
+                fr["cur"] = None
+        else:
+            self.ntail += 1
+            self._run_acts(acts, fr["cur"] if fr is not None else self.inserted)
+
+    def _run_acts(self, acts, sink):
+        for a in acts:
+            try:
+                if a[0] == "close" and not any(f["kind"] == "close" for f in self.frames):
+                    fr2 = {"kind": "close", "groups": [], "cur": None, "n0": len(self.handles), "i0": len(self.log), "tomb": self._tombs()}
+                    sink.append(("closeI", fr2["groups"]))
+                    self.frames.append(fr2)
+                    try:
+                        self._dispatch(a, "close", True, self.log)
+                    finally:
+                        self.frames.pop()
+                        self._check_order(fr2)
+                else:
+                    sink.append(("close0",) if a[0] == "close" else a)
+                    self._dispatch(a, a[0], self.enabled(a), self.log)
+            except Exception as e:
+                self.last_exc = repr(e)
+                self.log.append(("raised", 99))
+
+    def _tombs(self):
+        """may the table hold a tombstone now?  (a Deferred cancelled while a connection was up, since that connection came up)"""
+        if self.transport() is None:
+            return False
+        seen = any(e[0] == "def" and e[2] == 3 for e in self.log)
+        for ev, _c, outs, en in reversed(self.records):
+            if seen:
+                break
+            if ev[0] == "ok" and en:
+                break
+            seen = any(o[0] == "def" and o[2] == 3 for o in outs)
+        return seen
+
+    def _check_order(self, fr, nrec=None):
+        """did this close() (with user code inside its loop) fail the requests newest first?  i.e. whenever the loop
+        failed handle h, no newer request that existed when close() started was still pending"""
+        if not fr["groups"]:
+            return
+        if fr["tomb"]:          # a tombstone is popped silently: where it stood in the order cannot be observed
+            self.order_ok = False
+            return
+        recs = self.records if nrec is None else self.records[:nrec]
+        fired = {o[1] for r in recs for o in r[2] if o[0] == "def"}
+        for k, e in enumerate(self.log):
+            if e[0] != "def":
+                continue
+            if k >= fr["i0"] and e[2] == 4 and e[1] < fr["n0"] and any(h2 not in fired for h2 in range(e[1] + 1, fr["n0"])):
+                self.order_ok = False
+            fired.add(e[1])
+
+    def _sort_close(self, log, i0):
+        fr = self.frames[-1] if self.frames else None
+        if fr is not None and fr["kind"] == "close" and fr["groups"]:
+            return            # user code ran inside the loop: the order is part of what happened
+        D.Impl._sort_close(self, log, i0)
+
+    def apply(self, ev):
+        self.inserted = []
+        fr = None
+        if ev[0] in ("ok", "close") and self.enabled(ev):
+            fr = {"kind": "flush" if ev[0] == "ok" else "close", "groups": [], "cur": None, "n0": len(self.handles), "i0": 0, "tomb": self._tombs()}
+            self.frames.append(fr)
+        try:
+            rec = D.Impl.apply(self, ev)
+        finally:
+            if fr is not None:
+                self.frames.pop()
+        head = ev
+        if fr is not None and fr["groups"]:
+            head = ("okI" if ev[0] == "ok" else "closeI", fr["groups"])
+            if ev[0] == "close":
+                self._check_order(fr, len(self.records) - 1)
+        self.mevents.append([head] + self.inserted)
+        return rec
+
+
+def enc_call(c):
+    if c[0] == "cancel":
+        return [1, c[1]]
+    if c[0] == "make":
+        return [2, c[1], 1 if c[2] else 0]
+    if c[0] == "disc":
+        return [3]
+    if c[0] == "close0":
+        return [4]
+    if c[0] == "closeI":
+        return [5] + enc_inter(c[1])
+    raise ValueError(c)
+
+
+def enc_inter(groups):
+    out = [len(groups)]
+    for h, calls in groups:
+        out += [h, len(calls)]
+        for c in calls:
+            out += enc_call(c)
+    return out
+
+
+def enc_icase(mevents, guard=1):
+    """case line of Model/BrokerClientHook.v; also returns how many model events follow each driver event"""
+    out, counts = [guard], []
+    for group in mevents:
+        counts.append(len(group) - 1)
+        for e in group:
+            if e[0] == "okI":
+                out += [13] + enc_inter(e[1])
+            elif e[0] == "closeI":
+                out += [14] + enc_inter(e[1])
+            elif e[0] == "close0":
+                out += [9]
+            else:
+                out += D.enc_event(e)
+    return out, counts
+
+
+def tokens(outs):
+    """flat output ints of one segment -> list of per-output int lists"""
+    toks, i = [], 0
+    while i < len(outs):
+        t = outs[i]
+        if t in (1, 3, 9):
+            n = 2
+        elif t in (2, 10):
+            n = 3
+        elif t == 7:
+            n = 3 + ((1 + outs[i + 3]) if outs[i + 2] == 1 else 0)
+        else:
+            n = 1
+        toks.append(outs[i:i + n])
+        i += n
+    return toks
+
+
+def merge_canon(model_trace, counts):
+    """merge the model's segments per driver event; the close Deferred's firing goes last, as in the driver's trace"""
+    out = []
+    for conn, outs in merge_segments(model_trace, counts):
+        tk = tokens(outs)
+        out.append([conn, [x for t in tk if t != [8] for x in t] + [x for t in tk if t == [8] for x in t]])
+    return out
+
+
+def gen_hooks(rnd, nmax=48):
+    hooks, extra = {}, [2000]
+
+    def call(h):
+        r = rnd.random()
+        if r < 0.45:
+            return ("cancel", rnd.randint(0, h + 4))
+        if r < 0.8:
+            extra[0] += 1
+            return ("make", extra[0] if rnd.random() < 0.7 else rnd.randint(1, 12), rnd.random() < 0.7)
+        if r < 0.9:
+            return ("disc",)
+        return ("close",)
+    for h in range(nmax):
+        r = rnd.random()
+        if r < 0.42:
+            hooks[h] = [call(h) for _ in range(rnd.choice([1, 1, 2, 3]))]
+        elif r < 0.55:       # cancel a request and re-issue its correlation id (top-level ids are handed out 1, 2, 3, ..)
+            h2 = rnd.randint(max(0, h - 3), h + 4)
+            hooks[h] = [("cancel", h2), ("make", h2 + 1 + rnd.choice([0, 0, 0, -1, 1]), rnd.random() < 0.8)]
+    return hooks
+
+
+def tree_history(rnd, length, hooks=None, pk=None):
+    hooks = gen_hooks(rnd) if hooks is None else hooks
+    pk = pk or rnd.choice(["const", "const+cc"])
+    im = TreeImpl(pk, hooks)
+    im.pk = pk
+    events, nxt = [], 1
+    for _ in range(length):
+        opts = [("make", 25.0 if im.transport() else 60.0)]
+        if im.handles:
+            opts.append(("cancel", 8.0))
+        if im.attempt():
+            opts += [("ok", 30.0), ("fail", 6.0)]
+        if im.timer():
+            opts.append(("fire", 20.0))
+        if im.transport():
+            opts += [("frame", 30.0), ("lost", 4.0), ("disc", 1.5)]
+        opts.append(("close", 3.0 if not im.closed else 0.5))
+        x = rnd.uniform(0, sum(w for _, w in opts))
+        for kind, w in opts:
+            x -= w
+            if x <= 0:
+                break
+        if kind == "make":
+            rid = rnd.choice(im.rids) if im.rids and rnd.random() < 0.05 else nxt
+            nxt += 1
+            ev = ("make", rid, rnd.random() > 0.35)
+        elif kind == "cancel":
+            ev = ("cancel", rnd.randrange(len(im.handles)))
+        elif kind == "frame":
+            rid = rnd.choice(im.rids) if im.rids and rnd.random() < 0.85 else 77
+            ev = ("frame", D.reply(rid, bytes(rnd.randint(0, 255) for _ in range(rnd.choice([0, 2, 5])))))
+        else:
+            ev = (kind,)
+        im.apply(ev)
+        events.append(ev)
+    return events, hooks, im
+
+
+def tree_monitor(im, pid):
+    g = generic_monitor(im.records, pid)
+    if g:
+        return g
+    if im.closed:
+        fired = {o[1] for r in im.records for o in r[2] if o[0] == "def"}
+        left = [h for h in range(len(im.handles)) if h not in fired]
+        if left:
+            return ("C06_exactly_once" if pid == "C06" else "C10_reentrant_close_all_fired",
+                    "after close() the Deferreds %r never fired" % left, len(im.records))
+    return None
+
+
+def run_tree(events, hooks, pk):
+    im = TreeImpl(pk, {int(k): [tuple(a) for a in v] for k, v in hooks.items()})
+    im.pk = pk
+    for ev in events:
+        im.apply(ev)
+    return im
+
+
+def tree_part(ck, rnd, n, tied):
+    label = ("user callbacks/errbacks calling cancel/makeRequest/disconnect/close from inside _sendQueued's loop, close()'s loop and "
+             "from tail positions vs Model.BrokerClientHook.irun (IConnOk / IClose interleavings)")
+    cases, metas = [], []
+    for _ in range(n):
+        events, hooks, im = tree_history(rnd, rnd.choice([8, 15, 30, 50]))
+        case, counts = enc_icase(im.mevents)
+        cases.append(case)
+        metas.append((events, hooks, im, counts))
+        ck.hist("calls_inside_sendQueued_loop", im.nloop["flush"])
+        ck.hist("calls_inside_close_loop", im.nloop["close"])
+        ck.hist("calls_from_tail_callbacks", im.ntail)
+    mo = ck.model("brokerclienthook", cases)
+    ndiff, first, bad, skipped, skipdiff = 0, None, None, 0, 0
+    for i, ((events, hooks, im, counts), mt) in enumerate(zip(metas, mo)):
+        if bad is None and tree_monitor(im, ck.pid):
+            bad = i
+        same = merge_canon(mt, counts) == split_trace(D.enc_trace(im.records))
+        if not im.order_ok:
+            # user code ran inside a close() loop whose order of failing cannot be told to be the model's (newest first):
+            # the outcome may legitimately depend on that order, so a difference here is recorded, not reported
+            skipped += 1
+            skipdiff += 0 if same else 1
+            continue
+        if not same:
+            ndiff += 1
+            if first is None:
+                first = i
+    st = ck.cov["correspondence"].setdefault(label, {"cases": 0, "differences": 0, "in_coq_sample": 0,
+                                                     "close_order_dependent_cases": 0, "close_order_dependent_differences_not_reported": 0})
+    st["cases"] += n
+    st["differences"] += ndiff
+    st["close_order_dependent_cases"] += skipped
+    st["close_order_dependent_differences_not_reported"] += skipdiff
+    ck.cov["evaluations"] += n
+    for c, m in zip(cases, metas):
+        if m[2].nloop["flush"] + m[2].nloop["close"] + m[2].ntail:
+            ck._distinct.add(vlib.hashlib.sha1(vlib.encode_line(c).encode()).digest()[:8])
+    # a sample of these lines is re-evaluated inside Coq as well
+    pairs = [(c, o) for c, o in zip(cases, mo)]
+    nco, nbad = ck.coq_sample("brokerclienthook", "Model.BrokerClientHook", pairs)
+    if nbad:
+        raise vlib.CheckAbort("extracted hook model and vm_compute disagree on %d of %d sampled cases" % (nbad, nco))
+    st["in_coq_sample"] += nco
+
+    def used(hooks, im):
+        return {str(k): [list(a) for a in v] for k, v in hooks.items() if k < len(im.handles)}
+    if bad is not None:
+        events, hooks, im, counts = metas[bad]
+        thm0 = tree_monitor(im, ck.pid)[0]
+        small = list(events)
+        while len(small) > 1:
+            g = tree_monitor(run_tree(small[:-1], hooks, im.pk), ck.pid)
+            if not (g and g[0] == thm0):
+                break
+            small = small[:-1]
+        im2 = run_tree(small, hooks, im.pk)
+        g = tree_monitor(im2, ck.pid)
+        ck.violation({"kind": "monitor: a call made by user code from inside a Deferred callback breaks the theorem", "theorem": g[0],
+                      "message": g[1] + ("; exception %s" % im2.last_exc if hasattr(im2, "last_exc") else ""),
+                      "events": D.jsonable(small), "hooks": used(hooks, im2), "policy": im.pk,
+                      "impl_outputs": [[D.jsonable([o])[0] for o in r[2]] for r in im2.records], "replay_op": "bc-tree"})
+    elif first is not None:
+        events, hooks, im, counts = metas[first]
+        ck.violation({"kind": "correspondence broken", "correspondence": "corr:brokerclienthook:" + label, "theorems_no_longer_tied": tied,
+                      "events": D.jsonable(events), "hooks": used(hooks, im), "policy": im.pk,
+                      "impl": D.enc_trace(im.records), "model": mo[first], "differing_cases": ndiff, "replay_op": "bc-tree"}, no_input=True)
+    return st
+
+
+def replay_tree(rp):
+    events = D.unjson(rp["events"])
+    im = run_tree(events, rp["hooks"], rp.get("policy", "const"))
+    print(rp.get("kind"), "|", rp.get("message", ""))
+    print("hooks (handle -> calls made by its callback/errback when the Deferred fires):", rp["hooks"])
+    for (ev, c, outs, en), me in zip(im.records, im.mevents):
+        print("  %-36r connected=%d %r" % (ev if ev[0] not in ("data", "frame") else (ev[0], list(ev[1])), c, outs))
+        if me != [ev]:
+            print("      model events: %r" % (me,))
+    g = tree_monitor(im, rp.get("property", "C10"))
+    print("monitor verdict now:", g)
+    rc = 1 if g else 0
+    exe = os.path.join(vlib.OUT, "run_brokerclienthook")
+    if os.path.exists(exe) and im.order_ok:
+        case, counts = enc_icase(im.mevents)
+        p = subprocess.run([exe], input=(vlib.encode_line(case) + "\n").encode(), stdout=subprocess.PIPE)
+        mt = [int(x) for x in p.stdout.decode().split()]
+        if merge_canon(mt, counts) != split_trace(D.enc_trace(im.records)):
+            print("differs from the model:", mt)
+            rc = 1
+    return rc
